@@ -7,6 +7,11 @@ mod etrade;
 mod fmv;
 mod errvis;
 mod fuzz;
+mod fx;
+mod fxcache;
+mod fxcommon;
+mod fxcrash;
+mod fxmain;
 mod ledger;
 mod pages;
 mod rng;
@@ -309,6 +314,7 @@ fn main() {
         "layout-replay" => replay_stdin(&mut w, layout::replay),
         "summary-replay" => replay_stdin(&mut w, summary::replay),
         "csvrt-replay" => replay_stdin(&mut w, csvrt::replay),
+        f if f.starts_with("fx") => fxmain::run(&args, seed, count, &mut w),
         f => {
             eprintln!("unknown family {}", f);
             std::process::exit(2);
